@@ -161,7 +161,8 @@ Inductive verdict := Positive_ok | Negative_ok | Not_judged | Bad (clause:Z).
 Definition follows (P:params) (ann:list isoform) (c:rcase) : bool :=
   match rc_source c with
   | Some s => compatible (p_delta P) 0 (rc_exons c) (exons_of ann s) &&
-              forallb (fun e => p_minimal_exon_overlap P <=? ilen e) (rc_exons c)     (* no exon shorter than minimal_exon_overlap *)
+              forallb (fun e => 2 * p_minimal_exon_overlap P <=? ilen e) (rc_exons c)     (* no exon shorter than twice minimal_exon_overlap: a shorter one can
+                 straddle a split-exon boundary with fewer than minimal_exon_overlap bases on either side and then hits no block (noninformative) *)
   | None => false end.
 Definition is_far (P:params) (ann:list isoform) (c:rcase) : bool :=
   forallb (fun i => far_from (doubled P) (rc_exons c) (snd i)) ann.
